@@ -101,25 +101,46 @@ Fixpoint take_hex (k : nat) (s : ustring) : option ustring :=
   | S k' => match s with c :: r => if is_hex c then take_hex k' r else None | [] => None end
   end.
 Definition take_dash (s : option ustring) : option ustring :=
-  match s with Some (45 :: r) => Some r | _ => None end.
+  match s with Some (c :: r) => if c =? 45 then Some r else None | _ => None end.
 Definition obind (s : option ustring) (f : ustring -> option ustring) : option ustring :=
   match s with Some x => f x | None => None end.
-Definition interop_match (s : ustring) : bool :=
+(* Two places where the pinned code and a later repair differ (found out at run time):
+     canonical_text : _check_uuid also demands  str(uuid.UUID(text)) == text.lower()
+     regex_end_Z    : the interoperability regex ends in \Z instead of $ (no final newline) *)
+Record idmode := mkIdMode { canonical_text : bool; regex_end_Z : bool }.
+Definition pinned_idmode : idmode := mkIdMode false false.
+Definition repaired_idmode : idmode := mkIdMode true true.
+
+Definition interop_match (im : idmode) (s : ustring) : bool :=
   match obind (take_dash (obind (take_dash (obind (take_dash (obind (take_dash (take_hex 8 s)) (take_hex 4))) (take_hex 4))) (take_hex 4))) (take_hex 12) with
   | Some [] => true
-  | Some [10] => true
+  | Some [c] => (c =? 10) && negb (regex_end_Z im)
   | _ => false
   end.
+
+(* str(uuid.UUID(int=n)) : 8-4-4-4-12 lower-case hexadecimal digits *)
+Definition hex_lower (d : N) : N := if d <? 10 then 48 + d else 87 + d.
+Definition digit_at (n : N) (k : N) : N := hex_lower ((n / 16 ^ k) mod 16).
+Definition canon_text (n : N) : ustring :=
+  map (digit_at n) [31; 30; 29; 28; 27; 26; 25; 24] ++ [45] ++
+  map (digit_at n) [23; 22; 21; 20] ++ [45] ++
+  map (digit_at n) [19; 18; 17; 16] ++ [45] ++
+  map (digit_at n) [15; 14; 13; 12] ++ [45] ++
+  map (digit_at n) [11; 10; 9; 8; 7; 6; 5; 4; 3; 2; 1; 0].
+(* str.lower() on in-model (ASCII) text *)
+Definition lower_char (c : N) : N := if (65 <=? c) && (c <=? 90) then c + 32 else c.
+Definition ustr_lower (s : ustring) : ustring := map lower_char s.
 
 Definition v20s : ustring := u "2.0".
 
 (* _check_uuid(uuid_str, spec_version, interoperability); spec_version is any str *)
-Definition check_uuid (s spec_version : ustring) (interop : bool) : ures :=
-  if interop then UOk (interop_match s) else
+Definition check_uuid (im : idmode) (s spec_version : ustring) (interop : bool) : ures :=
+  if interop then UOk (interop_match im s) else
   match uuid_int s with
   | None => UOutside
   | Some None => UValueError
   | Some (Some n) =>
+      if canonical_text im && negb (ustr_eqb (canon_text n) (ustr_lower s)) then UOk false else
       let ok := variant_rfc4122 n in
       UOk (if ok && ustr_eqb spec_version v20s then uuid_version n =? 4 else ok)
   end.
@@ -134,7 +155,7 @@ Fixpoint after_dashdash (s : ustring) : option ustring :=     (* id_[id_.index("
   | [] => None
   end.
 
-Definition validate_id (id_ spec_version : ustring) (required_prefix : ustring) (interop : bool) : vres :=
+Definition validate_id (im : idmode) (id_ spec_version : ustring) (required_prefix : ustring) (interop : bool) : vres :=
   let part :=
     match required_prefix with
     | [] => after_dashdash id_                                  (* None / "" : falsy *)
@@ -144,7 +165,7 @@ Definition validate_id (id_ spec_version : ustring) (required_prefix : ustring) 
   | _ :: _, None => VBadPrefix
   | _, None => VInvalid
   | _, Some p =>
-    match check_uuid p spec_version interop with
+    match check_uuid im p spec_version interop with
     | UOk true => VOk
     | UOk false => VInvalid
     | UValueError => VInvalid
